@@ -7,12 +7,13 @@
    are used as their meaning. *)
 From Coq Require Import List NArith ZArith Bool Lia ZifyBool ZifyNat ZifyN.
 From Coq Require String.
-From PB Require Import Base.PBytes Base.GoInt Wire.WireModel Wire.VarintP Wire.WireGoBaseP Wire.WireGoConsumeP
+From PB Require Import Base.PBytes Base.GoInt Wire.WireModel Wire.VarintP Wire.ScanP Wire.WireGoBaseP Wire.WireGoConsumeP
   Wire.WireGoAppendP Wire.WireGoP Wire.WireGoLoopP Gen.WireGo Msg.MsetGoRt Gen.MsetGo
   Msg.MsetModel Msg.MsetWireP Msg.MsetP.
 Ltac Zify.zify_post_hook ::= Z.div_mod_to_equations.
 Import ListNotations.
 Import String.StringSyntax.
+Local Open Scope string_scope.
 Open Scope Z_scope.
 
 Lemma zbytes_nil : zbytes [] = [].
@@ -53,4 +54,256 @@ Proof.
   unfold go_AppendFieldEnd, append_field_end, field_item.
   change 1 with (Z.of_N 1). change 4 with (Z.of_N 4).
   apply go_AppendTag_spec; lia.
+Qed.
+
+(* ------------------------------------------------------------------ *)
+(* ConsumeFieldValue: the item loop                                     *)
+Definition cfvm_loop (v_wantLen : bool) (v_ilen : Z) :=
+  fix loop1 (lfuel : nat) (v_b : list Z) (v_b_nil : bool) (v_message : list Z) (v_message_nil : bool) (v_typeid : Z)
+      {struct lfuel} : outcome (Z * list Z * Z * go_error) :=
+    match lfuel with
+    | O => Fuel
+    | S lfuel' =>
+      bind (WireGo.go_ConsumeTag v_b) (fun '(v_num, v_wtyp, v_n1) =>
+      if (v_n1 <? 0) then Val (0, (@nil Z), 0, (WireGo.go_ParseError v_n1))
+      else
+        bind (slice_lo v_b v_n1) (fun t1 =>
+        if ((v_num =? 1) && (v_wtyp =? 4)) then
+          if (v_wantLen && ((len v_message) =? 0)) then
+            Val (v_typeid, WireGo.go_AppendVarint v_message 0, (wrap_i64 (v_ilen - (len t1))), GoNil)
+          else
+            Val (v_typeid, v_message, (wrap_i64 (v_ilen - (len t1))), GoNil)
+        else
+          if ((v_num =? 2) && (v_wtyp =? 0)) then
+            bind (WireGo.go_ConsumeVarint t1) (fun '(v_v, v_n2) =>
+            if (v_n2 <? 0) then Val (0, (@nil Z), 0, (WireGo.go_ParseError v_n2))
+            else
+              bind (slice_lo t1 v_n2) (fun t2 =>
+              if ((v_v <? 1) || (2147483647 <? v_v)) then
+                Val (0, (@nil Z), 0, (GoErr "errors.New:invalid type_id in message set"))
+              else loop1 lfuel' t2 v_b_nil v_message v_message_nil (wrap_i32 v_v)))
+          else
+            if ((v_num =? 3) && (v_wtyp =? 2)) then
+              bind (WireGo.go_ConsumeBytes t1) (fun '(v_m, v_n3) =>
+              if (v_n3 <? 0) then Val (0, (@nil Z), 0, (WireGo.go_ParseError v_n3))
+              else
+                if v_message_nil then
+                  if v_wantLen then
+                    bind (slice3 t1 0 v_n3 v_n3) (fun t4 =>
+                    bind (slice_lo t1 v_n3) (fun t5 =>
+                    loop1 lfuel' t5 v_b_nil t4 v_b_nil v_typeid))
+                  else
+                    bind (slice3 v_m 0 (len v_m) (len v_m)) (fun t6 =>
+                    bind (slice_lo t1 v_n3) (fun t7 =>
+                    loop1 lfuel' t7 v_b_nil t6 (if (v_n3 <? 0) then true else v_b_nil) v_typeid))
+                else
+                  if v_wantLen then
+                    bind (WireGo.go_ConsumeVarint v_message) (fun '(_, v_nn) =>
+                    bind (slice_lo v_message v_nn) (fun v_m0 =>
+                    let a := WireGo.go_AppendVarint (@nil Z) (wrap_u64 (wrap_i64 ((len v_m0) + (len v_m)))) in
+                    bind (slice_lo t1 v_n3) (fun t9 =>
+                    loop1 lfuel' t9 v_b_nil ((a ++ v_m0) ++ v_m)
+                      (((true && ((len a) =? 0)) && ((len v_m0) =? 0)) && ((len v_m) =? 0)) v_typeid)))
+                  else
+                    bind (slice_lo t1 v_n3) (fun t10 =>
+                    loop1 lfuel' t10 v_b_nil (v_message ++ v_m) (v_message_nil && ((len v_m) =? 0)) v_typeid))
+            else
+              bind (WireGo.go_ConsumeFieldValue v_num v_wtyp t1) (fun t11 =>
+              if (t11 <? 0) then Val (0, (@nil Z), 0, (WireGo.go_ParseError t11))
+              else
+                bind (slice_lo t1 t11) (fun t12 =>
+                loop1 lfuel' t12 v_b_nil v_message v_message_nil v_typeid))))
+    end.
+
+(* the tie to the generated text: fails when the loop in messageset.go changes *)
+Lemma ConsumeFieldValue_shape b bn wl :
+  MsetGo.go_ConsumeFieldValue b bn wl = cfvm_loop wl (len b) (S (length b + length (@nil Z))) b bn (@nil Z) true 0.
+Proof. reflexivity. Qed.
+
+(* Go's view of the model state and result *)
+Definition zmsg (msg : option (list byte)) : list Z := zbytes (match msg with Some m => m | None => [] end).
+Definition nilb (msg : option (list byte)) : bool := match msg with None => true | Some _ => false end.
+
+(* (typeid, message, n, err) of ConsumeFieldValue; the model's "impossible"
+   state is the state in which the Go code panics (message[nn:] with nn < 0) *)
+Definition zres_item (ilen : Z) (R : mres (N * list byte * list byte)) : outcome (Z * list Z * Z * go_error) :=
+  match R with
+  | MOk (tid, m, r) => Val (Z.of_N tid, zbytes m, ilen - Z.of_nat (length r), GoNil)
+  | MErr (MWire e) => Val (0, [], 0, WireGo.go_ParseError (werr_code e))
+  | MErr MTypeId => Val (0, [], 0, GoErr "errors.New:invalid type_id in message set")
+  | MErr MFuel => Fuel
+  | MErr _ => Panic
+  end.
+
+Definition minv (wl : bool) (msg : option (list byte)) (cur : list byte) : Prop :=
+  match msg with
+  | Some old => if wl then exists p, lp old p /\ Z.of_nat (length p + length cur) < 9223372036854775808 else True
+  | None => True
+  end.
+
+Lemma minv_mono wl msg cur r : minv wl msg cur -> (length r <= length cur)%nat -> minv wl msg r.
+Proof.
+  unfold minv. destruct msg as [old|]; [|auto]. destruct wl; [|auto].
+  intros (p & H1 & H2) Hr. exists p. split; [exact H1|lia].
+Qed.
+
+Lemma slice3_zbytes r k : (k <= length r)%nat ->
+  slice3 (zbytes r) 0 (Z.of_nat k) (Z.of_nat k) = Val (zbytes (firstn k r)).
+Proof.
+  intros Hk. unfold slice3. rewrite len_zbytes.
+  replace ((0 <? 0) || (Z.of_nat k <? 0) || (Z.of_nat k <? Z.of_nat k) || (Z.of_nat (length r) <? Z.of_nat k)) with false by lia.
+  rewrite Z.sub_0_r, Nat2Z.id. change (Z.to_nat 0) with 0%nat. cbn [skipn]. now rewrite zbytes_firstn.
+Qed.
+
+Lemma av0 : WireGo.go_AppendVarint [] 0 = zbytes (enc_varint 0).
+Proof. reflexivity. Qed.
+
+Lemma cfvm_loop_spec wl ilen : Z.of_nat ilen < 2^63 ->
+  forall g lfuel cur tid msg bn,
+  (length cur < length g)%nat -> (length cur < lfuel)%nat -> (bn = true -> cur = []) ->
+  (length cur <= ilen)%nat -> (tid <= 2147483647)%N -> minv wl msg cur ->
+  cfvm_loop wl (Z.of_nat ilen) lfuel (zbytes cur) bn (zmsg msg) (nilb msg) (Z.of_N tid)
+  = zres_item (Z.of_nat ilen) (item_loop wl g cur tid msg).
+Proof.
+  change (2^63) with 9223372036854775808. intros Hil.
+  induction g as [|g0 g IH]; intros lfuel cur tid msg bn Hg Hf Hbn Hle Htid Hinv; [cbn [length] in Hg; lia|].
+  destruct lfuel as [|lfuel]; [lia|].
+  cbn [length] in Hg.
+  unfold cfvm_loop at 1. cbv beta iota fix. fold (cfvm_loop wl (Z.of_nat ilen)).
+  cbn [item_loop].
+  rewrite go_ConsumeTag_spec. cbn [bind].
+  destruct (dec_tag cur) as [[[num typ] r]|e] eqn:Et; cbn [zres_tag].
+  2:{ pose proof (werr_code_neg e). replace (werr_code e <? 0) with true by lia. reflexivity. }
+  pose proof (dec_tag_len _ _ _ _ Et) as Hr.
+  destruct (dec_tag_prefix _ _ _ _ Et) as (Hnum & Htyp & pre & Ecur & _ & _).
+  replace (Z.of_nat (length cur - length r) <? 0) with false by lia.
+  destruct bn; [specialize (Hbn eq_refl); subst cur; destruct pre; discriminate|]. clear Hbn.
+  rewrite (slice_lo_consumed cur pre r Ecur). cbn [bind].
+  replace ((Z.of_N num =? 1) && (Z.of_N typ =? 4)) with ((num =? field_item)%N && (typ =? 4)%N) by (unfold field_item; lia).
+  destruct ((num =? field_item)%N && (typ =? 4)%N) eqn:C1.
+  { (* end of the item *)
+    rewrite len_zbytes. rewrite wrap_i64_small by lia.
+    destruct msg as [m|]; cbn [finish_msg zmsg nilb zres_item]; unfold zmsg.
+    - rewrite len_zbytes. destruct wl; cbn [andb]; [|reflexivity].
+      destruct (Nat.eqb (length m) 0) eqn:E.
+      + apply Nat.eqb_eq in E. replace (Z.of_nat (length m) =? 0) with true by lia.
+        apply length_zero_iff_nil in E. subst m. rewrite zbytes_nil, av0. reflexivity.
+      + apply Nat.eqb_neq in E. replace (Z.of_nat (length m) =? 0) with false by lia. reflexivity.
+    - rewrite zbytes_nil. destruct wl; cbn [andb len length Z.of_nat Z.eqb]; [rewrite av0|]; reflexivity. }
+  replace ((Z.of_N num =? 2) && (Z.of_N typ =? 0)) with ((num =? field_type_id)%N && (typ =? 0)%N) by (unfold field_type_id; lia).
+  destruct ((num =? field_type_id)%N && (typ =? 0)%N) eqn:C2.
+  { (* type_id *)
+    rewrite go_ConsumeVarint_spec. cbn [bind].
+    destruct (dec_varint r) as [[v r']|e] eqn:Ev; cbn [zres_vn].
+    2:{ pose proof (werr_code_neg e). replace (werr_code e <? 0) with true by lia. reflexivity. }
+    pose proof (dec_varint_len _ _ _ Ev) as Hr'.
+    destruct (dec_varint_suffix _ _ _ Ev) as (p2 & Er & _).
+    replace (Z.of_nat (length r - length r') <? 0) with false by lia.
+    rewrite (slice_lo_consumed r p2 r' Er). cbn [bind].
+    replace ((Z.of_N v <? 1) || (2147483647 <? Z.of_N v)) with ((v <? 1)%N || (max_int32 <? v)%N) by (unfold max_int32; lia).
+    destruct ((v <? 1)%N || (max_int32 <? v)%N) eqn:Cv; [reflexivity|].
+    unfold max_int32 in Cv. rewrite wrap_i32_small by lia.
+    apply IH; try lia; try discriminate. eapply minv_mono; [exact Hinv|lia]. }
+  replace ((Z.of_N num =? 3) && (Z.of_N typ =? 2)) with ((num =? field_message)%N && (typ =? 2)%N) by (unfold field_message; lia).
+  destruct ((num =? field_message)%N && (typ =? 2)%N) eqn:C3.
+  { (* message *)
+    rewrite go_ConsumeBytes_spec by (change (2^63) with 9223372036854775808; lia). cbn [bind].
+    destruct (dec_bytes r) as [[m r']|e] eqn:Eb; cbn [zres_bytes].
+    2:{ pose proof (werr_code_neg e). replace (werr_code e <? 0) with true by lia. reflexivity. }
+    pose proof (dec_bytes_len _ _ _ Eb) as Hr'.
+    pose proof (dec_bytes_raw _ _ _ Eb) as [Hlp Hsplit].
+    assert (Hm : (length m + length r' <= length r)%nat).
+    { pose proof (f_equal (@length _) Hsplit) as HL. rewrite app_length in HL.
+      apply lp_length in Hlp. lia. }
+    replace (Z.of_nat (length r - length r') <? 0) with false by lia.
+    destruct msg as [old|]; cbn [nilb add_chunk]; unfold zmsg.
+    - (* a further chunk *)
+      destruct wl.
+      + destruct Hinv as (p & Hp & Hpl).
+        pose proof (lp_dec_varint _ _ Hp) as Hdv. rewrite Hdv.
+        rewrite go_ConsumeVarint_spec, Hdv. cbn [bind zres_vn].
+        destruct (dec_varint_suffix _ _ _ Hdv) as (q & Eold & _).
+        rewrite (slice_lo_consumed old q p Eold). cbn [bind]. cbv zeta.
+        rewrite !len_zbytes. rewrite wrap_i64_small by lia. rewrite wrap_u64_small by lia.
+        replace (Z.of_nat (length p) + Z.of_nat (length m)) with (Z.of_N (N.of_nat (length p + length m))) by lia.
+        change (WireGo.go_AppendVarint (@nil Z)) with (WireGo.go_AppendVarint (zbytes [])).
+        rewrite go_AppendVarint_spec by (change (2^64)%N with 18446744073709551616%N; lia). cbn [app].
+        rewrite (slice_lo_consumed r _ r' Hsplit). cbn [bind].
+        rewrite len_zbytes.
+        pose proof (enc_varint_nonempty (N.of_nat (length p + length m))) as Hne.
+        replace (Z.of_nat (length (enc_varint (N.of_nat (length p + length m)))) =? 0) with false
+          by (destruct (enc_varint (N.of_nat (length p + length m))); [congruence|cbn [length]; lia]).
+        cbn [andb]. rewrite <- !zbytes_app, <- app_assoc.
+        apply (IH lfuel r' tid (Some (enc_varint (N.of_nat (length p + length m)) ++ p ++ m)) false); try lia; try discriminate.
+        exists (p ++ m). split.
+        * rewrite <- app_length. change (enc_varint (N.of_nat (length (p ++ m))) ++ p ++ m) with (enc_bytes (p ++ m)).
+          apply lp_enc_bytes. rewrite app_length. change (2^64)%N with 18446744073709551616%N. lia.
+        * rewrite app_length. lia.
+      + rewrite (slice_lo_consumed r _ r' Hsplit). cbn [bind andb]. rewrite <- zbytes_app.
+        apply (IH lfuel r' tid (Some (old ++ m)) false); try lia; try discriminate; exact I.
+    - (* the first chunk *)
+      destruct wl.
+      + rewrite (slice3_zbytes r (length r - length r')) by lia. cbn [bind].
+        rewrite (slice_lo_consumed r _ r' Hsplit). cbn [bind].
+        apply (IH lfuel r' tid (Some (firstn (length r - length r') r)) false); try lia; try discriminate.
+        exists m. split; [exact Hlp|lia].
+      + rewrite len_zbytes. rewrite (slice3_zbytes m (length m)) by lia. rewrite firstn_all. cbn [bind].
+        rewrite (slice_lo_consumed r _ r' Hsplit). cbn [bind].
+        apply (IH lfuel r' tid (Some m) false); try lia; try discriminate; exact I. }
+  (* any other subfield is skipped *)
+  rewrite go_ConsumeFieldValue_spec by (change (2^63) with 9223372036854775808; lia). cbn [bind].
+  unfold consume_field_value.
+  destruct (parse_val default_dep num typ r) as [[v0 r']|e] eqn:Ep; cbn [zres_len].
+  2:{ pose proof (werr_code_neg e). replace (werr_code e <? 0) with true by lia. reflexivity. }
+  destruct (parse_val_suffix _ _ _ _ _ _ Ep) as (p3 & Er).
+  assert (Hr' : (length r' <= length r)%nat) by (rewrite Er, app_length; lia).
+  rewrite nat_N_Z.
+  replace (Z.of_nat (length r - length r') <? 0) with false by lia.
+  rewrite (slice_lo_consumed r p3 r' Er). cbn [bind].
+  apply IH; try lia; try discriminate. eapply minv_mono; [exact Hinv|lia].
+Qed.
+
+(* ConsumeFieldValue as translated = consume_item of the model, on every input
+   ([bn] says whether the argument slice is nil; a nil slice is empty) *)
+Theorem go_ConsumeFieldValue_eq_model bs bn wl :
+  Z.of_nat (length bs) < 2^63 -> (bn = true -> bs = []) ->
+  MsetGo.go_ConsumeFieldValue (zbytes bs) bn wl = zres_item (Z.of_nat (length bs)) (consume_item wl bs).
+Proof.
+  intros Hlen Hbn. rewrite ConsumeFieldValue_shape, len_zbytes. unfold consume_item.
+  apply (cfvm_loop_spec wl (length bs) Hlen (x00 :: bs) (S (length (zbytes bs) + length (@nil Z))) bs 0%N None bn);
+    cbn [length]; try rewrite zbytes_length; try lia; [exact Hbn|exact I].
+Qed.
+
+(* the item loop produces only wire errors, the type_id error, and the two
+   outcomes excluded by consume_item_sim *)
+Lemma item_loop_errs wl : forall g bs tid msg e,
+  item_loop wl g bs tid msg = MErr e -> e <> MPayload /\ e <> MUnknownData.
+Proof.
+  induction g as [|g0 g IH]; intros bs tid msg e H; cbn [item_loop] in H; [inversion H; split; discriminate|].
+  destruct (dec_tag bs) as [[[num typ] r]|e0]; [|inversion H; split; discriminate].
+  destruct ((num =? field_item)%N && (typ =? 4)%N); [discriminate|].
+  destruct ((num =? field_type_id)%N && (typ =? 0)%N).
+  { destruct (dec_varint r) as [[v r']|e1]; [|inversion H; split; discriminate].
+    destruct ((v <? 1)%N || (max_int32 <? v)%N); [inversion H; split; discriminate|]. eapply IH; eauto. }
+  destruct ((num =? field_message)%N && (typ =? 2)%N).
+  { destruct (dec_bytes r) as [[m r']|e1]; [|inversion H; split; discriminate].
+    destruct (add_chunk wl msg (firstn (length r - length r') r) m) as [a|e1] eqn:Ea; [eapply IH; eauto|].
+    inversion H; subst e1. unfold add_chunk in Ea. destruct msg as [old|]; [|discriminate].
+    destruct wl; [|discriminate]. destruct (dec_varint old) as [[? ?]|?]; inversion Ea; split; discriminate. }
+  destruct (parse_val default_dep num typ r) as [[v0 r']|e1]; [eapply IH; eauto|inversion H; split; discriminate].
+Qed.
+
+(* ... and it never panics and never runs out of fuel *)
+Theorem go_ConsumeFieldValue_total bs bn wl :
+  Z.of_nat (length bs) < 2^63 -> (bn = true -> bs = []) ->
+  exists v, MsetGo.go_ConsumeFieldValue (zbytes bs) bn wl = Val v.
+Proof.
+  intros Hlen Hbn. rewrite go_ConsumeFieldValue_eq_model by assumption.
+  assert (H64 : (N.of_nat (length bs) < 2^64)%N).
+  { change (2^63) with 9223372036854775808 in Hlen. change (2^64)%N with 18446744073709551616%N. lia. }
+  pose proof (consume_item_sim bs H64) as H.
+  destruct (consume_item false bs) as [[[id p] r]|e] eqn:E.
+  - destruct H as (v & Ht & _). destruct wl; [rewrite Ht|rewrite E]; eexists; reflexivity.
+  - destruct H as (Ht & H1 & H2). destruct (item_loop_errs _ _ _ _ _ _ E) as [H3 H4].
+    destruct wl; [rewrite Ht|rewrite E]; destruct e; try congruence; eexists; reflexivity.
 Qed.
